@@ -1,5 +1,6 @@
 pub mod account;
 pub mod backend;
+pub mod c03;
 pub mod c04;
 pub mod c06c10;
 pub mod c09;
@@ -20,11 +21,13 @@ pub mod hist;
 pub mod histchecks;
 pub mod mmops;
 pub mod mv;
+pub mod sched;
 pub mod tableops;
 pub mod tape;
 
 pub fn all_checks() -> Vec<Box<dyn driver::Check>> {
     vec![
+        Box::new(c03::C03),
         Box::new(c04::C04),
         Box::new(c06c10::C06),
         Box::new(c09::C09),
